@@ -7,6 +7,9 @@ Case families (field "kind"):
           "fresh": every op from a fresh init (exhaustive small scope), else one op sequence
   argv    `event.arg` as a probe handler sees it after typing an argument (every digit string of
           length <= 3, with and without '-') into the real editor, against argVal(argOfKeys ...)
+  vi      Vi navigation-mode single-key editing commands (~ x X r J gJ >> <<) typed into a real
+          vi-mode PromptSession, exhaustive small scope, oracle only
+  raise   op sequences whose on_text_changed listener raises once: consistency afterwards, oracle only
   e2e     the same commands typed key by key into a real PromptSession (emacs mode, multi-line):
           Esc - / Esc <digits> argument prefix, then the key; the model resolves the key through the
           regenerated binding table and computes the argument from the typed keys
@@ -216,6 +219,15 @@ PARTIAL_SCOPE = [
     "case-transform commands: the stretch up to Document.find_next_word_ending (which skips the character under "
     "the cursor) is what they address; proved as a local edit of one stretch after the cursor",
     "clipboard side of the kill commands (C09), is_repeat concatenation, bell: not modelled",
+    "Vi navigation-mode single-key commands (~, x, X, r<c>, J, gJ, >>, <<; counts; every cursor navigation mode "
+    "allows, empty lines included) are typed into a real vi-mode PromptSession and judged by the property oracle "
+    "only: no Lean model of the vi handlers (x / X / J / >> / << call Buffer methods that ARE modelled); known "
+    "finding: ~ on a character whose swapcase is longer ('\u00df' -> 'SS') overwrites the following character too "
+    "(proposed_fixes/C01-vi-tilde-length.diff)",
+    "change notifications: on_text_changed / on_cursor_position_changed listeners on every real buffer of the "
+    "op / history / end-to-end families require cursor in range + equal views AT NOTIFICATION TIME, and the "
+    "'raise' family lets the listener raise once and requires a consistent buffer afterwards (oracle only; the "
+    "model has no event layer, so 'text and cursor stored, then notifications' is not a theorem)",
     "history search filter (enable_history_search) and asynchronous history loading are outside the model",
     "the Document cache model has selection_state = None throughout; join_selected_lines, indent/unindent: frame "
     "and invariant proved, exact line content correspondence-checked only",
@@ -482,6 +494,53 @@ def argx_cases():
         yield {"kind": "e2e", "fresh": True, "text": ARGX_TEXT, "cur": ARGX_CUR, "ops": ops[i:i + 64]}
 
 
+def raise_cases(rng, count):
+    """op sequences in which the `on_text_changed` listener raises once (at op number `boom`): the
+    buffer must be consistent right after the failed op and after every later op (oracle only)"""
+    for text, cur, op in [("hello world", 11, ["delb", 5]), ("hello", 2, ["ins", "xy", 0, 1]), ("ab\ncd", 1, ["join", " "]),
+                          ("abc", 3, ["text", "a"]), ("abc", 3, ["setdoc", "z", 1]), ("a b c", 5, ["rub", 1, 1]),
+                          ("ab", 2, ["kl", -1]), ("a\nb", 0, ["ind", 0, 2, 1]), ("ab cd", 5, ["dhs"])]:
+        yield {"kind": "raise", "text": text, "cur": cur, "boom": 0, "ops": [op, ["ins", "q", 0, 1], ["delb", 1]]}
+    for _ in range(count):
+        n = rng.choice([1, 2, 3, 5, 8, 13])
+        text = rand_text(rng, n)
+        cur = rng.choice([0, len(text), rng.randrange(0, len(text) + 1)])
+        ops = [rand_op(rng, len(text)) for _ in range(rng.randrange(1, 8))]
+        yield {"kind": "raise", "text": text, "cur": cur, "boom": rng.randrange(len(ops)), "ops": ops}
+
+
+VI_ALPHA = ["a", "B", " ", "\n"]
+VI_OPS = [["~"], ["x", 1], ["x", 2], ["x", 5], ["X", 1], ["X", 2], ["X", 5], ["r", "z", 1], ["r", "z", 2], ["r", "\u00df", 1],
+          ["J", 1], ["J", 2], ["gJ", 1], ["gJ", 3], [">>", 1], [">>", 2], ["<<", 1], ["<<", 2]]
+
+
+def vi_valid_cursors(text):
+    """cursor positions of Vi navigation mode: on a character, or on an empty line"""
+    out = []
+    for c in range(len(text) + 1):
+        at_eol = c == len(text) or text[c] == "\n"
+        line_empty = at_eol and (c == 0 or text[c - 1] == "\n")
+        if not at_eol or line_empty:
+            out.append(c)
+    return out
+
+
+def vi_cases(tier):
+    """the Vi navigation-mode single-key editing commands that are C01's subject, typed into a real
+    PromptSession (vi mode, multi-line): every text over {a,B,space,\\n} up to the bound (+ fixed
+    longer ones), cursor on every position navigation mode allows, each op from a fresh state"""
+    maxlen = 3 if tier == "quick" else 5
+    texts = ["".join(t) for n in range(maxlen + 1) for t in itertools.product(VI_ALPHA, repeat=n)]
+    texts += ["ab\n\ncd", "  ab\n\tcd\n\nef", "a\u00df\nb", "\u00dfab", "    x\n  y\n\n    z", "a  \n   b\n\n\n c"]
+    ops = []
+    for t in texts:
+        for c in vi_valid_cursors(t):
+            for op in VI_OPS:
+                ops.append([t, c, op])
+    for i in range(0, len(ops), 256):
+        yield {"kind": "vi", "ops": ops[i:i + 256]}
+
+
 def arg_bytes(o):
     a = o["arg"]
     if o.get("plain") and len(a) > 1:
@@ -601,6 +660,8 @@ def cases(tier, rng):
             text = "".join(tup)
             yield {"kind": "ops", "text": text, "cur": 0, "fresh": True, "ops": rops}
     yield from argx_cases()
+    yield from vi_cases(tier)
+    yield from raise_cases(rng, 300 if quick else 5000)
     yield from e2e_cases(rng, 400 if quick else 3500)
     # case-transform commands on words whose case mapping changes the length (sharp s)
     case_ops = [[w, a] for w in ("uw", "lw", "cw") for a in (1, 2, 3)]
@@ -662,6 +723,8 @@ def model_lines(case):
         else:
             out.append(init)
             out += [op_line(op) for op in case["ops"]]
+    elif kind in ("vi", "raise"):
+        out = []        # oracle only (PARTIAL_SCOPE)
     elif kind == "argv":
         out = [f"argv {enc_str(x)}" for x, _ in case["ops"]]
     elif kind == "e2e":
@@ -733,11 +796,63 @@ def stub_event(b, arg, data=""):
     return SimpleNamespace(current_buffer=b, arg=arg, data=data, is_repeat=False, arg_present=True, app=app)
 
 
+class ListenerBoom(Exception):
+    """raised once by the `on_text_changed` listener of the "raise" family"""
+
+
+def attach_listeners(b: Buffer):
+    """`on_text_changed` / `on_cursor_position_changed` listeners that look at the buffer AT
+    NOTIFICATION TIME: the cursor must be inside the text and every view must show the same text
+    there too (C01: "after every edit ...", and a listener runs after the edit was stored).
+    `b._verif_boom[0] = True` makes the text listener raise once (after looking)."""
+    b._verif_notif = []
+    b._verif_boom = [False]
+
+    def look(which):
+        def handler(buf):
+            t = buf._working_lines[buf.working_index] if 0 <= buf.working_index < len(buf._working_lines) else None
+            c = buf.cursor_position
+            why = None
+            if t is None:
+                why = "working index outside the working lines"
+            elif not (0 <= c <= len(t)):
+                why = f"cursor {c} outside 0..{len(t)}"
+            elif buf.text != t:
+                why = "Buffer.text differs from the working line"
+            else:
+                try:
+                    d = buf.document
+                    if d.text != t or d.cursor_position != c:
+                        why = "Buffer.document differs from text / cursor"
+                except AssertionError as e:
+                    why = f"Buffer.document raises AssertionError ({e})"
+            if why:
+                buf._verif_notif.append({"signature": f"Buffer notification | {which} listener sees an inconsistent buffer",
+                                         "msg": f"{which}: {why}; text={t!r} cursor={c}"})
+            if which == "on_text_changed" and buf._verif_boom[0]:
+                buf._verif_boom[0] = False
+                raise ListenerBoom()
+        return handler
+
+    b.on_text_changed += look("on_text_changed")
+    b.on_cursor_position_changed += look("on_cursor_position_changed")
+
+
+def drain_notifications(b: Buffer, op):
+    out = []
+    for x in getattr(b, "_verif_notif", []):
+        out.append(dict(x, msg=x["msg"] + f" (during op {op})"))
+    if out:
+        del b._verif_notif[:]
+    return out
+
+
 def new_buffer(text, cur):
     from prompt_toolkit.filters import Condition
     ro = [False]
     b = Buffer(document=Document(text, cur), accept_handler=lambda buf: True, read_only=Condition(lambda: ro[0]))
     b._verif_ro = ro
+    attach_listeners(b)
     return b
 
 
@@ -747,6 +862,7 @@ def refresh(b: Buffer, case):
     b.reset(Document(case["text"], case["cur"]))
     b.text_width = 0
     b._verif_ro[0] = False
+    del b._verif_notif[:]
 
 
 def apply_op(b: Buffer, op):
@@ -868,6 +984,7 @@ def e2e_run(case, observe=None):
     """type the commands into a real PromptSession (emacs mode, multi-line) key by key"""
     from editor import editor
     with editor(text=case["text"], cursor=case["cur"], multiline=True) as ed:
+        attach_listeners(ed.buffer)
         lines = [state_line(ed.buffer)]
         for o in case["ops"]:
             if case.get("fresh"):
@@ -952,6 +1069,8 @@ def impl_lines(case):
         return e2e_run(case)
     if kind == "argv":
         return argv_run(case)
+    if kind in ("vi", "raise"):
+        return []
     if kind == "fc":
         return fc_run(case)
     if kind == "tc":
@@ -1010,6 +1129,7 @@ def check_op(text, cur, op, b: Buffer, ret):
         if nt != before + after[m:] or nc != cur or (ret is not None and ret != after[:m]):
             bad(site, cond, what)
 
+    v += drain_notifications(b, op)
     if not (0 <= nc <= len(nt)):
         bad("Buffer." + k, "cursor out of range", "cursor outside 0..len(text)")
     if not (b.document.text == nt and b._working_lines[b.working_index] == nt
@@ -1282,6 +1402,8 @@ def check_hist(b, op, lines0, idx0, ret, text0, cur0):
         v.append({"signature": f"Buffer.{op[0]} | {cond}", "msg": f"{msg}: lines={lines0!r} idx={idx0} cur={cur0} op={op} -> "
                   f"lines={list(b._working_lines)!r} idx={b.working_index} cur={b.cursor_position}"})
 
+    if op[0] in HIST_ONLY:
+        v += drain_notifications(b, op)
     lines1, idx1 = list(b._working_lines), b.working_index
     if not (0 <= idx1 < len(lines1)):
         bad("working index out of range", "working_index outside the working lines")
@@ -1302,6 +1424,137 @@ def check_hist(b, op, lines0, idx0, ret, text0, cur0):
         elif len(lines1) != len(lines0) or any(x != y for j, (x, y) in enumerate(zip(lines0, lines1)) if j != idx0):
             bad("edit changed another working line", "an edit touched a working line it does not address")
         v += check_op(text0, cur0, op, b, ret)
+    return v
+
+
+def vi_keys(op):
+    k = op[0]
+    if k == "~":
+        return "~"
+    if k == "r":
+        return ("" if op[2] == 1 else str(op[2])) + "r" + op[1]
+    n = op[1]
+    return ("" if n == 1 else str(n)) + k
+
+
+def check_vi(text, cur, op, b: Buffer):
+    """C01 for one Vi navigation-mode command: result = before + X + after' with X characterised"""
+    v = drain_notifications(b, op)
+    before, after = text[:cur], text[cur:]
+    nt, nc = b.text, b.cursor_position
+    k = op[0]
+    line_after = after.split("\n", 1)[0]
+    line_before = before.rsplit("\n", 1)[-1]
+
+    def bad(cond, msg):
+        v.append({"signature": f"vi {k} | {cond}", "msg": f"{msg}: text={text!r} cur={cur} keys={vi_keys(op)!r} -> text={nt!r} cur={nc}"})
+
+    if not (0 <= nc <= len(nt)):
+        bad("cursor out of range", "cursor outside 0..len(text)")
+    if not (b.document.text == nt == b._working_lines[b.working_index] and b.document.cursor_position == nc):
+        bad("views disagree", "text/document/working line differ")
+    if k == "~":
+        # the character under the cursor is replaced by its swapcase; on a line ending / at the end
+        # of the text nothing at all changes
+        if line_after == "":
+            exp = text
+        else:
+            exp = before + after[0].swapcase() + after[1:]
+        if nt != exp:
+            longer = line_after != "" and len(after[0].swapcase()) != 1
+            bad("swapcase changes the length" if longer else "frame",
+                "~ must change exactly the character under the cursor (nothing on a line ending)")
+    elif k == "x":
+        m = min(op[1], len(line_after))
+        if nt != before + after[m:]:
+            bad("frame", "x must delete min(n, rest of the line) characters after the cursor")
+    elif k == "X":
+        m = min(op[1], len(line_before))
+        if nt != before[:len(before) - m] + after or (m and nc > cur - m):
+            bad("frame", "X must delete min(n, start of the line) characters before the cursor")
+    elif k == "r":
+        c = op[1]
+        ks = [1 if line_after else 0]
+        if op[2] > 1 and op[2] <= len(line_after):
+            ks.append(op[2])          # vim semantics (n characters), should the count ever be honoured
+        if not any(nt == before + c * max(j, 1) + after[j:] for j in ks):
+            bad("frame", "r<c> must replace the character under the cursor (never a line ending) and nothing else")
+    elif k in ("J", "gJ"):
+        sep = " " if k == "J" else ""
+        t, c = text, cur
+        for _ in range(op[1]):
+            if "\n" not in t[c:]:
+                break
+            i = t.index("\n", c)
+            t = t[:i] + sep + t[i + 1:].lstrip(" ")
+            c = i
+        if nt != t:
+            bad("frame", "J must replace exactly the line endings (and following blanks) it addresses")
+    elif k in (">>", "<<"):
+        lines, nlines = text.split("\n"), nt.split("\n")
+        row = before.count("\n")
+        rows = set(range(row, min(row + op[1], len(lines))))
+        if len(lines) != len(nlines):
+            bad("line count", "indent changed the number of lines")
+        else:
+            for r, (l0, l1) in enumerate(zip(lines, nlines)):
+                if r not in rows:
+                    if l0 != l1:
+                        bad("frame", "a line outside the count changed")
+                elif k == ">>":
+                    if l1 != "    " + l0:
+                        bad("content", "indented line is not indent + line")
+                elif not l0.endswith(l1) or l0[: len(l0) - len(l1)].strip() != "":
+                    bad("content", "unindent removed non-blank characters")
+    return v
+
+
+def vi_run(case, observe):
+    from editor import editor
+    from prompt_toolkit.key_binding.vi_state import InputMode
+    with editor(text="", cursor=0, multiline=True, vi=True) as ed:
+        attach_listeners(ed.buffer)
+        for text, cur, op in case["ops"]:
+            ed.app.vi_state.input_mode = InputMode.NAVIGATION
+            ed.buffer.reset(Document(text, cur))
+            del ed.buffer._verif_notif[:]
+            ed.feed(vi_keys(op))
+            observe(text, cur, op, ed.buffer)
+
+
+def raise_run(case):
+    """see raise_cases"""
+    v = []
+    b = new_buffer(case["text"], case["cur"])
+
+    def consistent(op, when):
+        t = b._working_lines[b.working_index]
+        c = b.cursor_position
+        ok = 0 <= c <= len(t) and b.text == t
+        if ok:
+            try:
+                d = b.document
+                ok = d.text == t and d.cursor_position == c
+            except AssertionError:
+                ok = False
+        if not ok:
+            v.append({"signature": f"Buffer.{op[0]} | inconsistent buffer {when}",
+                      "msg": f"text={case['text']!r} cur={case['cur']} ops={case['ops']} boom at {case['boom']}: "
+                             f"after {op}: text={t!r} cursor={c}"})
+
+    for i, op in enumerate(case["ops"]):
+        b._verif_boom[0] = (i == case["boom"])
+        try:
+            apply_op(b, op)
+        except ListenerBoom:
+            consistent(op, "after a listener raised")
+        except (IndexError, AssertionError) as e:
+            v.append({"signature": f"Buffer.{op[0]} | raised {type(e).__name__} after a listener raised",
+                      "msg": f"text={case['text']!r} cur={case['cur']} ops={case['ops']} boom at {case['boom']}: {e}"})
+            break
+        b._verif_boom[0] = False
+        v += drain_notifications(b, op)
+        consistent(op, "after an op that follows a raising listener" if i > case["boom"] else "after an op")
     return v
 
 
@@ -1348,6 +1601,11 @@ def oracle(case):
                 v.append(x)
         e2e_run(case, obs)
         return dedupe(v)
+    if kind == "vi":
+        vi_run(case, lambda t, c, op, buf: v.extend(check_vi(t, c, op, buf)))
+        return dedupe(v)
+    if kind == "raise":
+        return dedupe(raise_run(case))
     if kind == "argv":
         got = argv_run(case)
         for (x, plain), g in zip(case["ops"], got):
@@ -1439,7 +1697,8 @@ def distribution(cases):
             key = str(n) if n < 6 else "6+"
             d["text_len"][key] = d["text_len"].get(key, 0) + 1
         for op in c["ops"]:
-            name = op["op"][0] if isinstance(op, dict) else ("argv" if kind == "argv" else op[0] if kind != "fc" else "fcget")
+            name = (op["op"][0] if isinstance(op, dict) else "argv" if kind == "argv" else "vi " + op[2][0] if kind == "vi"
+                    else op[0] if kind != "fc" else "fcget")
             d["ops"][name] = d["ops"].get(name, 0) + 1
     return d
 
